@@ -31,6 +31,7 @@ RULE = (
     ' Round 6: the save is reached through save(), load()+save(), start()..stop() or the gateway context; the old file may be in the legacy layout (with or without nulls); an enumerated grid of entry point x layout x grow/shrink/same/none.'
     ' Round 7: `link` - the live path is a symbolic link to the real file.'
     ' Round 9: `old_age` (mtime of the old file); every crash point also as a soft death (KeyboardInterrupt at that operation).'
+    " Round 10: `path_form` (bare, ./name, ../dir/name relative to the working directory); the sweep starts from everything the library's own save left in the directory."
 )
 ASSUMPTIONS = [
     "process death with a surviving operating system: bytes handed to write(2) persist, no power-loss reordering",
